@@ -338,3 +338,84 @@ def run(repo, rep):
     from . import c12
 
     rep.run_borrowed(c12, {'C12-d': 'C03-g'}, repo)
+
+    # ---------------------------------------------------------------- h: a PAD lowered to copies defines every byte of its OFM
+    rep.clause("C03-h", "convert_pad: the copy of the IFM and the up to four border fills tile the padded OFM exactly, for every combination of pad widths (finite evaluation of the five (shape, write offset) pairs)")
+    _rule_convert_pad(repo, rep)
+    from . import c04, c08
+
+    rep.run_borrowed(c04, {"C04-d": "C03-g"}, repo)
+    rep.run_borrowed(c08, {"C08-f": "C03-g"}, repo)
+
+
+def _rule_convert_pad(repo, rep):
+    import itertools
+
+    go = repo.mod("tflite_graph_optimiser")
+    cp = go.func("convert_pad")
+    site = "ethosu/vela/tflite_graph_optimiser.py:convert_pad"
+
+    def ev(e, env):
+        if isinstance(e, ast.Constant):
+            return e.value
+        if isinstance(e, ast.Name):
+            if e.id in env:
+                return env[e.id]
+            raise AnalysisError(f"convert_pad: unbound name {e.id}")
+        if isinstance(e, ast.BinOp) and isinstance(e.op, (ast.Add, ast.Sub, ast.Mult)):
+            a, b = ev(e.left, env), ev(e.right, env)
+            return a + b if isinstance(e.op, ast.Add) else a - b if isinstance(e.op, ast.Sub) else a * b
+        if isinstance(e, ast.Attribute) and e.attr in ("height", "width", "depth", "batch"):
+            v = ev(e.value, env)
+            return v[("batch", "height", "width", "depth").index(e.attr)]
+        if isinstance(e, ast.Call) and call_name(e) == "Shape4D" and len(e.args) == 4:
+            return tuple(ev(a, env) for a in e.args)
+        if isinstance(e, ast.Call) and isinstance(e.func, ast.Attribute) and e.func.attr in ("with_height", "with_width", "with_depth") and len(e.args) == 1:
+            v = list(ev(e.func.value, env))
+            v[{"with_height": 1, "with_width": 2, "with_depth": 3}[e.func.attr]] = ev(e.args[0], env)
+            return tuple(v)
+        raise AnalysisError(f"convert_pad: expression not evaluable: {norm(e)}")
+
+    pieces = []
+    top_assign = {norm(s_.targets[0]): s_.value for s_ in cp.body if isinstance(s_, ast.Assign) and len(s_.targets) == 1 and isinstance(s_.targets[0], ast.Name)}
+    for node in ast.walk(cp):
+        if isinstance(node, ast.Call) and call_name(node) == "create_avg_pool_for_concat" and len(node.args) >= 5:
+            guard = None
+            local = {}
+            for par in ast.walk(cp):
+                if isinstance(par, ast.If) and any(node is x for b in par.body for x in ast.walk(b)):
+                    guard = par.test
+                    local = {norm(s_.targets[0]): s_.value for s_ in par.body if isinstance(s_, ast.Assign) and len(s_.targets) == 1 and isinstance(s_.targets[0], ast.Name)}
+            pieces.append((norm(node.args[1]), guard, node.args[3], node.args[4], local))
+    if len(pieces) != 5:
+        raise AnalysisError(f"convert_pad: expected 5 copy operations, found {len(pieces)}")
+    bad = None
+    n = 0
+    for top, left, bottom, right, h, w in itertools.product((0, 1, 2), (0, 1, 3), (0, 1, 2), (0, 2), (1, 3), (1, 2)):
+        env = {"top": top, "left": left, "bottom": bottom, "right": right, "ifm_shape": (1, h, w, 4), "ofm_shape": (1, top + h + bottom, left + w + right, 4)}
+        for k_ in ("shp0", "shp_top"):
+            if k_ in top_assign:
+                env[k_] = ev(top_assign[k_], env)
+        cover = {}
+        for name, guard, shp_e, off_e, local in pieces:
+            if guard is not None:
+                gl, gr = ev(guard.left, env), ev(guard.comparators[0], env)
+                if not (gl > gr if isinstance(guard.ops[0], ast.Gt) else gl != gr if isinstance(guard.ops[0], ast.NotEq) else gl >= gr):
+                    continue
+            e2 = dict(env)
+            for k_, v_ in local.items():
+                if k_ == "shape":
+                    e2["shape"] = ev(v_, e2)
+            shp = ev(shp_e, e2)
+            off = ev(off_e, e2)
+            for r in range(off[1], off[1] + shp[1]):
+                for c in range(off[2], off[2] + shp[2]):
+                    cover[(r, c)] = cover.get((r, c), 0) + 1
+        n += 1
+        H, W = top + h + bottom, left + w + right
+        want = {(r, c) for r in range(H) for c in range(W)}
+        if (set(cover) != want or any(v != 1 for v in cover.values())) and bad is None:
+            missing = sorted(want - set(cover))[:3]
+            extra = sorted(k_ for k_, v in cover.items() if v != 1 or k_ not in want)[:3]
+            bad = f"pads (top {top}, left {left}, bottom {bottom}, right {right}) on a {h}x{w} IFM: rows/cols never written {missing}, written twice or outside {extra}"
+    rep.check(bad is None, "C03-h", site, f"the IFM copy and the border fills tile the OFM exactly ({n} pad / shape combinations)", (bad or "") + ": the consumer of the padded tensor reads bytes no operation defined")
